@@ -78,7 +78,86 @@ Proof.
   - intros y [H|[]]. subst. reflexivity.
 Qed.
 
+(* ---- the recover interceptor at an arbitrary place of a declared list ----
+   WithRecover(h) is WithInterceptors(recover interceptor): one more element of
+   the flat list (Interceptors.v: first = outermost). The other elements either
+   pass the call on, or panic when the call reaches them (they never call next). *)
+Inductive icpt := IPass | IPanic (v : pval) | IRecover.
+
+Fixpoint run_chain (ics : list icpt) (core : hout) : hout * list pval :=
+  match ics with
+  | [] => (core, [])
+  | IPass :: r => run_chain r core
+  | IPanic v :: _ => (Panics v, [])
+  | IRecover :: r =>
+    let '(o, calls) := run_chain r core in
+    let '(o', calls') := recover_wrap o in
+    (o', calls ++ calls')
+  end.
+
+Definition all_pass (l : list icpt) : Prop := forall i, In i l -> i = IPass.
+
+Lemma all_pass_cons i l : all_pass (i :: l) -> i = IPass /\ all_pass l.
+Proof. intro H. split; [apply H; left; reflexivity | intros j Hj; apply H; right; exact Hj]. Qed.
+
+Lemma run_chain_pass_prefix : forall pre rest core,
+  all_pass pre -> run_chain (pre ++ rest) core = run_chain rest core.
+Proof.
+  induction pre as [|i pre IH]; intros rest core H; [reflexivity|].
+  destruct (all_pass_cons _ _ H) as [-> H']. cbn [app run_chain]. exact (IH rest core H').
+Qed.
+
+(* declared AFTER WithRecover (inside it): recovered, one call of the recovery function *)
+Lemma recover_catches_inner_lemma : forall pre mid post v core,
+  all_pass pre -> all_pass mid -> v <> PAbort ->
+  run_chain (pre ++ IRecover :: mid ++ IPanic v :: post) core = (Returns (handle v), [v]).
+Proof.
+  intros pre mid post v core Hp Hm Hv.
+  rewrite (run_chain_pass_prefix pre _ core Hp). cbn [run_chain].
+  rewrite (run_chain_pass_prefix mid _ core Hm). cbn [run_chain].
+  destruct v as [| |x]; [ | congruence | ]; reflexivity.
+Qed.
+
+(* declared BEFORE WithRecover (outside it): not recovered, the recovery function is not called *)
+Lemma recover_misses_outer_lemma : forall pre rest v core,
+  all_pass pre ->
+  run_chain (pre ++ IPanic v :: rest) core = (Panics v, []).
+Proof.
+  intros pre rest v core Hp. rewrite (run_chain_pass_prefix pre _ core Hp). reflexivity.
+Qed.
+
+(* the handler function itself is innermost: recovered wherever WithRecover stands *)
+Lemma recover_catches_core_lemma : forall pre post v,
+  all_pass pre -> all_pass post -> v <> PAbort ->
+  run_chain (pre ++ IRecover :: post) (Panics v) = (Returns (handle v), [v]).
+Proof.
+  intros pre post v Hp Hq Hv.
+  rewrite (run_chain_pass_prefix pre _ _ Hp). cbn [run_chain].
+  replace post with (post ++ []) by apply app_nil_r.
+  rewrite (run_chain_pass_prefix post [] _ Hq). cbn [run_chain].
+  destruct v as [| |x]; [ | congruence | ]; reflexivity.
+Qed.
+
+Lemma all_pass_repeat n : all_pass (repeat IPass n).
+Proof. intros i H. exact (repeat_spec _ _ _ H). Qed.
+
+(* the two-counter form used by the C19 cases is the list form *)
+Lemma chain_with_recover_is_run_chain : forall outer inner core,
+  chain_with_recover outer inner core
+  = run_chain (repeat IPass outer ++ IRecover :: repeat IPass inner) core.
+Proof.
+  intros outer inner core. unfold chain_with_recover. rewrite !iter_passthrough.
+  rewrite (run_chain_pass_prefix _ _ core (all_pass_repeat outer)). cbn [run_chain].
+  replace (repeat IPass inner) with (repeat IPass inner ++ []) by apply app_nil_r.
+  rewrite (run_chain_pass_prefix _ [] core (all_pass_repeat inner)). cbn [run_chain].
+  destruct (recover_wrap core) as [o c]. rewrite iter_passthrough. reflexivity.
+Qed.
+
 End Recover.
+
+Arguments IPass {V}.
+Arguments IPanic {V}.
+Arguments IRecover {V}.
 
 Arguments PNil {V}.
 Arguments PAbort {V}.
